@@ -32,7 +32,7 @@ CASE_TIMEOUT_S = 5
 ALPHABET = (
     [['add', k] for k in U] + [['discard', k] for k in (0, 1, 2)] + [['remove', 1], ['remove', 3]] +
     [['pop-last'], ['pop-first'], ['clear'],
-     ['ior', 2, 0, 3], ['ior', 3, 1], ['iand', 0, 3], ['iand', 3, 1, 2], ['isub', 1, 0], ['ixor', 3, 0, 1],
+     ['ior', 2, 0, 3], ['ior', 3, 1], ['ior-bad', 3, 1], ['ior-bad', 2], ['iand', 0, 3], ['iand', 3, 1, 2], ['isub', 1, 0], ['ixor', 3, 0, 1],
      ['or', 3, 0], ['and', 3, 2, 0], ['sub', 0, 2], ['xor', 3, 0], ['eq', 0, 1], ['eq', 1, 0],
      ['iter-rm', 0, 2], ['iter-rm', 1], ['isub-self']]
 )
@@ -61,7 +61,7 @@ def generate(ctx):
     rng = ctx.rng.fork('random')
     n = ctx.pick(300, 6000)
     maxlen = ctx.pick(60, 400)
-    names = ['add', 'discard', 'remove', 'pop-last', 'pop-first', 'clear', 'ior', 'iand', 'isub', 'ixor',
+    names = ['add', 'discard', 'remove', 'pop-last', 'pop-first', 'clear', 'ior', 'ior-bad', 'iand', 'isub', 'ixor',
              'or', 'and', 'sub', 'xor', 'eq', 'iter-rm', 'isub-self', 'ixor-self', 'in']
     big = list(range(0, 12))
     for i in range(n):
@@ -166,6 +166,25 @@ def run_impl(case):
                 s.clear()
                 expect = set()
                 oracle = []
+            elif nm == 'ior-bad':
+                # an in-place union that is REJECTED half way: the operand yields its elements and then fails (an unhashable
+                # element / a generator that raises); what was taken in before stays, and the set stays consistent
+                def failing(xs=tuple(args), how=len(args) % 2):
+                    for k in xs:
+                        yield k
+                    if how:
+                        yield []
+                    else:
+                        raise RuntimeError('operand failed')
+                try:
+                    s |= failing()
+                    fail('bad-operand-accepted', '|= with a failing operand raised nothing')
+                except (TypeError, RuntimeError):
+                    pass
+                expect = bset | set(args)
+                for k in args:
+                    if k not in oracle:
+                        oracle.append(k)
             elif nm == 'ior':
                 o = mk_other()
                 s |= o
@@ -303,7 +322,8 @@ def _norm(x):
 
 def model_line(case):
     head = 'osetp' if case['level'] == 'ptr' else 'oset'
-    return dumps([Sym(head)] + [[Sym(o[0])] + o[1:] for o in case['ops']])
+    # a rejected in-place union has taken in the elements its operand yielded before failing: for the model it is that union
+    return dumps([Sym(head)] + [[Sym('ior' if o[0] == 'ior-bad' else o[0])] + o[1:] for o in case['ops']])
 
 
 def model_obs(case, ans):
